@@ -249,3 +249,99 @@ def parallel_map(ctx, fn, items: List[Any], jobs: int = 12) -> List[Any]:
         if r_[0] != "ok":
             raise AnalysisError(r_[1])
     return [r_[1] for r_ in res]
+
+
+class HostWorld:
+    """A host and its controller in one scenario: DebugConnection (the repository's Builder, memory manager, Qubit and futures, built by
+    their constructors) on one side, QNodeController with its Executor on the other (the controller's three abstract hooks - which
+    executor class, stop, message bookkeeping - are the only things supplied).  Every message the connection commits is decoded by the
+    repository's deserialize_host_msg and handled by the controller, in order, when `deliver()` is called."""
+
+    def __init__(self, ctx, hardware: str = "generic", qubits: int = 5, nv_compiler: bool = False, sc: Optional[C.Scenario] = None, meas_outcomes: Optional[List[int]] = None):
+        self.ctx, self.repo, self.ev = ctx, ctx.repo, ctx.ev
+        repo = self.repo
+        self.sc = sc or scenario()
+        self.trace: List[Tuple] = []
+        self.meas_outcomes = list(meas_outcomes or [])
+        self.dc = repo.get_class("netqasm.sdk.connection", "DebugConnection")
+        self.qc = repo.get_class("netqasm.sdk.qubit", "Qubit")
+        exc = repo.get_class(EXE, "Executor")
+        qn = repo.get_class("netqasm.backend.qnodeos", "QNodeController")
+        mo = self.sc.method_overrides
+        mo.update({"_get_executor_class": lambda o_, *a_, **k_: ("class", exc), "stop": lambda o_, *a_, **k_: None, "_mark_message_finished": lambda o_, *a_, **k_: None})
+
+        def rec(kind):
+            def f(o_, *a_, **k_):
+                vals = dict(k_)
+                names = {"single": ("instr", "subroutine_id", "address"), "rot": ("instr", "subroutine_id", "address", "angle"),
+                         "crot": ("instr", "subroutine_id", "address1", "address2", "angle"), "two": ("instr", "subroutine_id", "address1", "address2"),
+                         "meas": ("subroutine_id", "q_address")}[kind]
+                for n_, v_ in zip(names, a_):
+                    vals.setdefault(n_, v_)
+                ins_ = vals.get("instr")
+                mn = ins_.fields.get("mnemonic") if isinstance(ins_, C.Obj) else None
+                qs = tuple(vals[k2] for k2 in ("address", "address1", "address2", "q_address") if k2 in vals)
+                self.trace.append((kind if kind == "meas" else mn, qs, vals.get("angle")))
+                if kind == "meas":
+                    return self.meas_outcomes.pop(0) if self.meas_outcomes else 0
+                return None
+            return f
+        mo.update({"_do_single_qubit_instr": rec("single"), "_do_single_qubit_rotation": rec("rot"), "_do_controlled_qubit_rotation": rec("crot"),
+                   "_do_two_qubit_instr": rec("two"), "_do_meas": rec("meas")})
+        self.I = C.Interp(repo, self.ev, self.sc, self.dc)
+        bt = repo.module("netqasm.sdk.build_types")
+        hw_cls = bt.classes["NVHardwareConfig" if hardware == "nv" else "GenericHardwareConfig"]
+        kw: Dict[str, Any] = {"hardware_config": self.I.construct(hw_cls, [qubits], {}, None), "max_qubits": qubits}
+        if nv_compiler:
+            kw["compiler"] = ("class", repo.get_class("netqasm.sdk.transpile", "NVSubroutineTranspiler"))
+        r_ = outcome(self.I.construct, self.dc, ["alice"], kw, None)
+        if r_[0] != "ok":
+            raise AnalysisError(f"DebugConnection('alice', {hardware}, {qubits} qubits) cannot be constructed: {r_}")
+        self.conn = r_[1]
+        flavour = None
+        if nv_compiler:
+            fl = repo.get_class("netqasm.lang.instr.flavour", "NVFlavour")
+            flavour = self.I.construct(fl, [], {}, None)
+        self.ctrl = self.I.construct(qn, [], {"name": self.I.getattr(self.conn, "node_name"), "flavour": flavour}, None)
+        self.executor = self.ctrl.fields["_executor"]
+        self.delivered = 0
+        self.msgs_mod = repo.module("netqasm.backend.messages")
+
+    # -- host side -------------------------------------------------------------------------------------------------------------
+    def new_qubit(self):
+        return outcome(self.I.construct, self.qc, [self.conn], {}, None)
+
+    def call(self, obj, name, *args, **kw):
+        return outcome(self.I.method, obj, name, list(args), kw, None)
+
+    def host_active_ids(self) -> List[int]:
+        qs = self.I.getattr(self.conn, "active_qubits")
+        return sorted(self.I.getattr(q_, "qubit_id") for q_ in qs)
+
+    # -- the wire --------------------------------------------------------------------------------------------------------------
+    def deliver(self):
+        """hand every message committed since the last call to the controller -> list of (message class, outcome)"""
+        out = []
+        des = self.msgs_mod.functions.get("deserialize_host_msg")
+        if des is None:
+            raise AnalysisError("backend.messages.deserialize_host_msg not found")
+        storage = self.conn.fields.get("storage")
+        if not isinstance(storage, list):
+            raise AnalysisError("DebugConnection keeps no `storage` list of committed messages")
+        while self.delivered < len(storage):
+            raw = storage[self.delivered]
+            k = self.delivered
+            self.delivered += 1
+            m_ = outcome(self.I.call_function, self.msgs_mod, des, [raw], {})
+            if m_[0] != "ok":
+                out.append(("<undecodable>", m_))
+                continue
+            msg = m_[1]
+            r_ = outcome(self.I.method, self.ctrl, "handle_netqasm_message", [], {"msg_id": k, "msg": msg}, None)
+            out.append((msg.cls.name if isinstance(msg, C.Obj) and msg.cls is not None else str(msg), r_))
+        return out
+
+    # -- controller side -------------------------------------------------------------------------------------------------------
+    def allocated(self, app_id: int = 0) -> List[int]:
+        um = self.executor.fields.get("_qubit_unit_modules", {}).get(app_id)
+        return sorted(i_ for i_, v_ in enumerate(um or []) if v_ is not None)
